@@ -1,2 +1,71 @@
-// verification hooks (see /verif/DESIGN.md section 10); compiled only with --features verif-hooks
+// Verification hooks for src/lru/adaptive.rs (child module: sees private fields).
 #![allow(missing_docs, dead_code, unused_imports)]
+
+use super::*;
+pub use crate::verif_hooks::spec::{Abs, Vid, NMAX};
+
+#[derive(Clone, Copy, PartialEq, Eq, Debug)]
+pub struct ArcAbs {
+    pub size: usize,
+    pub p: usize,
+    /// T1
+    pub recent: Abs,
+    /// T2
+    pub frequent: Abs,
+    /// B1
+    pub recent_evict: Abs,
+    /// B2
+    pub frequent_evict: Abs,
+}
+
+impl<K, V, RH, REH, FH, FEH> AdaptiveCache<K, V, RH, REH, FH, FEH> {
+    #[doc(hidden)]
+    pub fn verif_abs(&self) -> ArcAbs
+    where
+        K: Vid,
+        V: Vid,
+    {
+        ArcAbs {
+            size: self.size,
+            p: self.p,
+            recent: self.recent.verif_abs(),
+            frequent: self.frequent.verif_abs(),
+            recent_evict: self.recent_evict.verif_abs(),
+            frequent_evict: self.frequent_evict.verif_abs(),
+        }
+    }
+}
+
+#[cfg(kani)]
+impl<K: Hash + Eq, V, RH: BuildHasher, REH: BuildHasher, FH: BuildHasher, FEH: BuildHasher> AdaptiveCache<K, V, RH, REH, FH, FEH> {
+    pub(crate) fn verif_from_parts(
+        size: usize,
+        p: usize,
+        recent: RawLRU<K, V, DefaultEvictCallback, RH>,
+        recent_evict: RawLRU<K, V, DefaultEvictCallback, REH>,
+        frequent: RawLRU<K, V, DefaultEvictCallback, FH>,
+        frequent_evict: RawLRU<K, V, DefaultEvictCallback, FEH>,
+    ) -> Self {
+        AdaptiveCache { size, p, recent, recent_evict, frequent, frequent_evict }
+    }
+
+    pub(crate) fn verif_check(&self) -> (ArcAbs, bool)
+    where
+        K: Vid,
+        V: Vid,
+    {
+        let (t1, w1) = self.recent.verif_check();
+        let (t2, w2) = self.frequent.verif_check();
+        let (b1, w3) = self.recent_evict.verif_check();
+        let (b2, w4) = self.frequent_evict.verif_check();
+        (ArcAbs { size: self.size, p: self.p, recent: t1, frequent: t2, recent_evict: b1, frequent_evict: b2 }, w1 && w2 && w3 && w4)
+    }
+
+    pub(crate) fn verif_forget(self) {
+        core::mem::forget(self)
+    }
+}
+
+#[cfg(kani)]
+#[path = "/verif/kani/harness_adaptive.rs"]
+pub(crate) mod harness;
